@@ -1,9 +1,11 @@
 import Cbor.Gen.Streaming
 import Cbor.Lemmas.Loaders
 import Cbor.Spec.Head
+import Cbor.Lemmas.Tactics
 /-!
 Bridge between the generated streaming decoder and the RFC head specification.
 -/
+set_option linter.unusedSimpArgs false
 namespace Lemmas
 open Gen
 
@@ -42,29 +44,26 @@ theorem claim_bytes_eq (req n : UInt64) (r : S_cbor_decoder_result) (h : r.read.
       else
         (false, { read := 0, status := 1,
                   required := if req.toNat + r.read.toNat < 2 ^ 64 then req + r.read else 18446744073709551615 }) := by
-  have hr := UInt64.le_iff_toNat_le.mpr h
-  have hsub := UInt64.toNat_sub_of_le _ _ hr
+  -- independent of the shape of the generated `claim_bytes` (guard polarity, hoisted locals, ternary vs if/else):
+  -- split every `if` on both sides, compare the results field by field, push every guard to `Nat`
   have hrl := r.read.toNat_lt
   have hql := req.toNat_lt
+  have hnl := n.toNat_lt
   unfold claim_bytes
-  by_cases hc : req > n - r.read
-  · have hc' := UInt64.lt_iff_toNat_lt.mp hc
-    have hn : ¬ (r.read.toNat + req.toNat ≤ n.toNat) := by omega
-    simp only [hc, decide_true, if_true, hn, if_false]
-    by_cases hs : req > (18446744073709551615 : UInt64) - r.read
-    · have hs' := UInt64.lt_iff_toNat_lt.mp hs
-      rw [UInt64.toNat_sub_of_le _ _ (UInt64.le_iff_toNat_le.mpr (by simp; omega))] at hs'
-      simp at hs'
-      have : ¬ (req.toNat + r.read.toNat < 2 ^ 64) := by omega
-      simp [hs, this]
-    · have hs' : ¬ ((18446744073709551615 : UInt64) - r.read).toNat < req.toNat := fun hh => hs (UInt64.lt_iff_toNat_lt.mpr hh)
-      rw [UInt64.toNat_sub_of_le _ _ (UInt64.le_iff_toNat_le.mpr (by simp; omega))] at hs'
-      simp at hs'
-      have : req.toNat + r.read.toNat < 2 ^ 64 := by omega
-      simp [hs, this]
-  · have hc' : ¬ (n - r.read).toNat < req.toNat := fun hh => hc (UInt64.lt_iff_toNat_lt.mpr hh)
-    have hn : r.read.toNat + req.toNat ≤ n.toNat := by omega
-    simp [hc, hn]
+  simp only []
+  repeat' split
+  all_goals (simp only [Prod.mk.injEq, S_cbor_decoder_result.mk.injEq, true_and, and_true, and_self, Bool.false_eq_true,
+    Bool.true_eq_false, reduceCtorEq, false_and, and_false])
+  all_goals cnorm
+  all_goals (try simp only [UInt64.toNat_sub, UInt64.toNat_add, UInt64.reduceToNat, Nat.reducePow] at *)
+  all_goals omega
+
+/-- `claim_bytes` has no side condition of its own -/
+theorem claim_ok (a b : UInt64) (c : S_cbor_decoder_result) : claim_bytes.ok a b c = true := by
+  unfold claim_bytes.ok
+  simp only []
+  repeat' split
+  all_goals (first | rfl | (cnorm; simp; done))
 
 end Lemmas
 
